@@ -8,6 +8,7 @@
 #include "driver.hpp"
 #ifdef VT_SIMD
 #define float vt::sf32
+#define double vt::sf64
 #endif
 #include <glm/geometric.hpp>
 #include <glm/matrix.hpp>
@@ -15,6 +16,7 @@
 #include <glm/gtc/quaternion.hpp>
 #ifdef VT_SIMD
 #undef float
+#undef double
 #endif
 using namespace vt;
 #if defined(VT_SIMD) || defined(VT_C03_ALIGNED)
@@ -51,6 +53,11 @@ ENTRY(v3_div) { out_vec(c, V3(0) / V3(1)); }
 ENTRY(v3_mul_s) { out_vec(c, V3(0) * SC(1)); }
 ENTRY(v4_eq) { c.out(V4(0) == V4(1)); }
 ENTRY(v4_ne) { c.out(V4(0) != V4(1)); }
+ENTRY(v3_eq) { c.out(V3(0) == V3(1)); }
+ENTRY(v3_ne) { c.out(V3(0) != V3(1)); }
+ENTRY(q_eq) { c.out(QT(0) == QT(1)); }
+ENTRY(m4_eq) { c.out(M4(0) == M4(1)); }
+ENTRY(m3_eq) { c.out(M3(0) == M3(1)); }
 ENTRY(v4_from_v3) { out_vec(c, glm::vec<4, TY, QH>(V3(0), SC(1))); }
 ENTRY(v3_from_v4) { out_vec(c, glm::vec<3, TY, QH>(V4(0))); }
 ENTRY(v4_splat) { out_vec(c, glm::vec<4, TY, QH>(SC(0))); }
@@ -119,6 +126,8 @@ ENTRY(q_add) { out_qua(c, QT(0) + QT(1)); }
 ENTRY(q_sub) { out_qua(c, QT(0) - QT(1)); }
 ENTRY(q_mul_s) { out_qua(c, QT(0) * SC(1)); }
 ENTRY(q_div_s) { out_qua(c, QT(0) / SC(1)); }
+ENTRY(q_mul_s_c) { auto q = QT(0); q *= SC(1); out_qua(c, q); }
+ENTRY(q_div_s_c) { auto q = QT(0); q /= SC(1); out_qua(c, q); }
 ENTRY(q_mul) { out_qua(c, QT(0) * QT(1)); }
 ENTRY(q_mul_v4) { out_vec(c, QT(0) * V4(1)); }
 ENTRY(q_mul_v3) { out_vec(c, QT(0) * V3(1)); }
@@ -129,4 +138,37 @@ ENTRY(q_conjugate) { out_qua(c, glm::conjugate(QT(0))); }
 ENTRY(q_inverse) { out_qua(c, glm::inverse(QT(0))); }
 ENTRY(q_lerp) { out_qua(c, glm::lerp(QT(0), QT(1), SC(2))); }
 ENTRY(q_mat4_cast) { out_mat(c, glm::mat4_cast(QT(0))); }
+// ---- double precision (aligned dvec4 / dvec3 / dquat)
+#define TD typename S::f64
+#define D4(a) in_vec<4, TD, QH>(c, a)
+#define D3(a) in_vec<3, TD, QH>(c, a)
+#define DQ(a) in_qua<TD, QH>(c, a)
+#define DS(a) c.template in<TD>(a, 0)
+ENTRY(d4_add) { out_vec(c, D4(0) + D4(1)); }
+ENTRY(d4_sub) { out_vec(c, D4(0) - D4(1)); }
+ENTRY(d4_mul) { out_vec(c, D4(0) * D4(1)); }
+ENTRY(d4_div) { out_vec(c, D4(0) / D4(1)); }
+ENTRY(d4_mul_s) { out_vec(c, D4(0) * DS(1)); }
+ENTRY(d4_add_s) { out_vec(c, D4(0) + DS(1)); }
+ENTRY(d3_add) { out_vec(c, D3(0) + D3(1)); }
+ENTRY(d3_sub) { out_vec(c, D3(0) - D3(1)); }
+ENTRY(d3_mul) { out_vec(c, D3(0) * D3(1)); }
+ENTRY(d3_div) { out_vec(c, D3(0) / D3(1)); }
+ENTRY(d4_fma) { out_vec(c, glm::fma(D4(0), D4(1), D4(2))); }
+ENTRY(d4_splat) { out_vec(c, glm::vec<4, TD, QH>(DS(0))); }
+ENTRY(d4_from_d3) { out_vec(c, glm::vec<4, TD, QH>(D3(0), DS(1))); }
+ENTRY(d3_from_d4) { out_vec(c, glm::vec<3, TD, QH>(D4(0))); }
+ENTRY(d4_dot) { c.out(glm::dot(D4(0), D4(1))); }
+ENTRY(d3_dot) { c.out(glm::dot(D3(0), D3(1))); }
+ENTRY(d3_cross) { out_vec(c, glm::cross(D3(0), D3(1))); }
+ENTRY(d4_length) { c.out(glm::length(D4(0))); }
+ENTRY(d4_mix_s) { out_vec(c, glm::mix(D4(0), D4(1), DS(2))); }
+ENTRY(dq_add) { out_qua(c, DQ(0) + DQ(1)); }
+ENTRY(dq_sub) { out_qua(c, DQ(0) - DQ(1)); }
+ENTRY(dq_mul_s) { out_qua(c, DQ(0) * DS(1)); }
+ENTRY(dq_div_s) { out_qua(c, DQ(0) / DS(1)); }
+ENTRY(dq_mul_s_c) { auto q = DQ(0); q *= DS(1); out_qua(c, q); }
+ENTRY(dq_div_s_c) { auto q = DQ(0); q /= DS(1); out_qua(c, q); }
+ENTRY(dq_add_c) { auto q = DQ(0); q += DQ(1); out_qua(c, q); }
+ENTRY(dq_mul) { out_qua(c, DQ(0) * DQ(1)); }
 VT_MAIN("C03")
